@@ -279,6 +279,21 @@ func monC17(x *Ctx) {
 	if !reflect.DeepEqual(want, got) {
 		x.Violate("schema/hook-calls", "schema", fmt.Sprintf("GenSchema hook calls %v, want %v", got, want), nil)
 	}
+	// every call of GenSchema<T> delegates anew (a schema kept from an earlier call would hand out what the hooks
+	// returned to another caller)
+	if _, so2 := x.Schema(); so2.Panic == nil {
+		var again []string
+		for _, c := range so2.Hooks {
+			if c.Hook == "GenSchema" {
+				again = append(again, hookSig(c.Suffix, c.Attr.Description, c.Attr.Required, c.Attr.Optional, c.Attr.Computed, c.Attr.Sensitive, validatorIDs(c.Attr.Validators), planModIDs(c.Attr.PlanModifiers)))
+			}
+		}
+		sort.Strings(again)
+		x.Eval(1)
+		if !reflect.DeepEqual(want, again) {
+			x.Violate("schema/hook-calls/second-call", "schema", fmt.Sprintf("GenSchema hook calls of a second GenSchema call %v, want %v", again, want), nil)
+		}
+	}
 	x.Count("custom-fields", len(customs))
 	empty, _ := emptyObject(s)
 	var occs []customOcc
